@@ -5,6 +5,7 @@ term is evaluated for EVERY rank 1..4 and every valid (also negative) axis confi
 of an axis-permuting primitive applies the inverse permutation (the cotangent comes back in the argument's axis
 order); for linalg.norm's nuclear branch, unroll(roll(x)) is the identity layout and roll puts the two matrix axes
 last.  No autograd code is executed; only the model of NumPy's axis functions is."""
+import ast
 import itertools
 
 from ..model import norm_text
@@ -120,7 +121,16 @@ class CEval:
         o = t.op
         if o == "const":
             return t.value
-        if o in ("closure", "partial", "ref"):
+        if o == "ref":
+            # a module-level constant (tuple of option values hoisted out of a rule): evaluate its literal
+            r_ = t.ref
+            if getattr(r_, "kind", None) == "repo" and getattr(r_, "okind", None) == "assign" and isinstance(r_.node, (ast.Tuple, ast.List, ast.Set, ast.Constant)):
+                try:
+                    return ast.literal_eval(r_.node)
+                except Exception:
+                    return t
+            return t
+        if o in ("closure", "partial"):
             return t
         if o == "sym":
             role = t.get("role")
@@ -162,10 +172,13 @@ class CEval:
                 return a is b
             if op == "IsNot":
                 return a is not b
-            if op == "In":
-                return a in b
-            if op == "NotIn":
-                return a not in b
+            if op in ("In", "NotIn"):
+                if not isinstance(b, (tuple, list, set, frozenset, dict, str)):
+                    raise Unknown("membership in a non-literal container")
+                try:
+                    return (a in b) if op == "In" else (a not in b)
+                except TypeError:
+                    raise Unknown("membership test on unhashable")
             if isinstance(a, Perm) or isinstance(b, Perm):
                 raise Unknown("cmp perm")
             try:
@@ -491,6 +504,72 @@ def norm_rolls(ctx, world):
         else:
             ctx.ob("A16.norm", inst, True, e.loc, sample=f"{decided}/{total} axis pairs decided")
     ctx.floor("A16.norm rules", n_inst, 2)
+
+
+def norm_support(ctx, world):
+    """A6.support - the closed forms implemented for linalg.norm are valid only for a finite set of
+    (vector/matrix, ord) configurations; every other configuration NumPy accepts must be rejected by the rule.
+    The maker is evaluated on the finite domain rank in 1..3 x axis in {None, int, pair} x ord in a representative
+    set, with arrays abstracted to their rank; `Raises` means rejected."""
+    from .. import facts
+
+    ctx.describe("A6.support", "linalg.norm (VJP and JVP): for every rank 1..3, axis in {None, an int, a pair} and ord in {None,'fro','nuc',2,1,3,0.5,0,-1,-2,inf}, a configuration outside the supported set (matrix norm: ord in {None,'fro','nuc'}; vector norm: ord None or ord > 1) makes the rule raise - decided by evaluating the maker's guard on the finite domain (arrays abstracted to their rank)")
+    sup = facts.load("norm_support")
+    matrix_ords = [None if v is None else v for v in sup["matrix_ords"]]
+    ords = [None, "fro", "nuc", 2, 1, 3, 0.5, 0, -1, -2, float("inf")]
+    n_inst = 0
+    for e in world.table.entries:
+        if not is_numpy_callable(e.prim) or base_name(e.prim) != "linalg.norm" or e.spec != "maker":
+            continue
+        ir = world.ir(e)
+        if ir is None or ir.maker is None:
+            continue
+        n_inst += 1
+        inst = construct_of(e)
+        bad = None
+        decided = total = 0
+        for n in (1, 2, 3):
+            ident = Perm(range(n))
+            axes = [None] + list(range(n)) + [(-2, -1), (0, 1)][: (2 if n >= 2 else 0)]
+            for axis in axes:
+                matrix = (n == 2 and axis is None) or isinstance(axis, tuple)
+                for od in ords:
+                    # only configurations NumPy itself accepts (the primal is computed first and raises otherwise)
+                    if matrix and not (od in (None, "fro", "nuc") or od in (1, -1, 2, -2, float("inf"))):
+                        continue
+                    if not matrix and isinstance(od, str):
+                        continue
+                    total += 1
+                    if matrix:
+                        supported = od in matrix_ords
+                    else:
+                        supported = od is None or (isinstance(od, (int, float)) and od > sup["vector_min_exclusive"])
+                    env = {0: ident, 1: od, 2: axis, "ord": od, "axis": axis}
+                    rejected = None
+                    try:
+                        C = NormEval(world, env, g=Perm(()), ans=Perm(()))
+                        C.of(ir.made)
+                        if e.mode == "vjp":
+                            pass
+                        rejected = False
+                    except Raises:
+                        rejected = True
+                    except Unknown:
+                        rejected = None
+                    if rejected is None:
+                        # evaluation left the finite domain after the construction-time guards: not rejected there
+                        rejected = False
+                    decided += 1
+                    if not supported and not rejected and bad is None:
+                        bad = (n, axis, od)
+        if bad:
+            n, axis, od = bad
+            kind = "matrix" if ((n == 2 and axis is None) or isinstance(axis, tuple)) else "vector"
+            ctx.fail("A6.support", inst, inst + "|unsupported-accepted", e.loc, f"np.linalg.norm(x, ord={od!r}, axis={axis!r}) on a rank-{n} array is a {kind} norm whose derivative is not implemented, but the rule no longer raises for it: one of the closed forms written for another norm is applied", f"ord={od!r}, axis={axis!r}, rank {n}", sample=f"{decided}/{total}")
+        else:
+            ctx.ob("A6.support", inst, True, e.loc, sample=f"{total} (rank, axis, ord) configurations evaluated")
+        ctx.extra["A6_support_configs"] = ctx.extra.get("A6_support_configs", 0) + total
+    ctx.floor("A6.support norm rules", n_inst, 2)
 
 
 class NormEval(CEval):
